@@ -55,7 +55,7 @@ def run_scripted(case):
             s0 = len(child.sent)
             k0 = len(child.kills)
             try:
-                v = w.run_command(text, timeout=5)
+                v = w.run_command(text, timeout=cmd.get('timeout', 5))      # 5 | -1 (the spawn's own) | None (wait for ever) | 0.5
                 out['results'].append(['value', v])
             except ValueError:
                 out['results'].append(['ValueError', child.kills[k0:]])
@@ -63,6 +63,8 @@ def run_scripted(case):
                 out['results'].append(['EOF', child.before]); break
             except TIMEOUT:
                 out['results'].append(['TIMEOUT', child.before]); break
+            except Exception as e:      # noqa  (anything else is not part of run_command's contract)
+                out['results'].append(['EXC:' + type(e).__name__, repr(e)[:120]]); break
             # one sendline per line of the command, whatever line separator the caller used
             want_sent = ['line%d\n' % k for k in range(cmd['lines'])]
             if out['results'][-1][0] == 'value' and child.sent[s0:] != want_sent:
@@ -165,7 +167,7 @@ def rand_case(rng, clean=True):
         lines = rng.choice([1, 1, 1, 2, 3])
         incomplete = rng.random() < 0.2
         segs = [mk(rng.random() < 0.8) for _ in range(lines - 1)] + [mk(incomplete)]
-        cmds.append(dict(lines=lines, segs=segs, sync=(mk(False) if incomplete else None),
+        cmds.append(dict(lines=lines, segs=segs, sync=(mk(False) if incomplete else None), timeout=rng.choice([5, 5, -1, None, 0.5]),
                          seps=[rng.choice(['\n', '\n', '\r\n', '\r', '\x0c', '\u2028']) for _ in range(lines - 1)]))
     case = dict(prompt=prompt, cont=cont, init=mk(False), cmds=cmds)
     if rng.random() < 0.15:
@@ -271,19 +273,76 @@ def fake_family(rng, k):
     return rng.choice(fam)
 
 
+TOY_REPL = r'''
+import sys, signal
+ps1, ps2 = 'toy> ', 'more> '
+class Intr(Exception): pass
+def on_int(sig, frm): raise Intr()
+signal.signal(signal.SIGINT, on_int)
+def out(s):
+    sys.stdout.write(s); sys.stdout.flush()
+while True:
+    try:
+        out(ps1)
+        line = sys.stdin.readline()
+        if not line: break
+        line = line.rstrip('\n')
+        while line.endswith('\\'):
+            out(ps2)
+            line = line[:-1] + sys.stdin.readline().rstrip('\n')
+        if line.startswith('say '): out(line[4:] + '\n')
+        elif line.startswith('raw '): out(line[4:])
+        elif line.startswith('rep '): out('0123456789abcdef' * int(line[4:]) + '\n')
+        elif line.startswith('prompts '): _, ps1, ps2 = line.split(' ')
+        elif line in ('', 'nothing'): pass
+        else: out('?' + line + '\n')
+    except Intr:
+        out('\nInterrupted\n')
+'''
+
+
+def toy_family(rng, k):
+    n = rng.choice([1, 40, 3000])
+    word = 'w%dz' % k
+    fam = [
+        ('say %s' % word, word + '\r\n'),
+        ('raw %s' % word, word),
+        ('nothing', ''),
+        ('say one%s \\\ntwo' % word, 'one%s two\r\n' % word),
+        ('rep %d' % n, '0123456789abcdef' * n + '\r\n'),
+        ('say open%s \\' % word, ValueError),
+        ('say a%s\nraw b%s' % (word, word), 'a%s\r\nb%s' % (word, word)),
+    ]
+    return rng.choice(fam)
+
+
+def toy_wrapper(variant, path):
+    """an already running spawn handed to REPLWrapper: with the terminal's echo on (the spawn default) or off, its own prompts or changed ones"""
+    echo, change = [(True, False), (True, True), (False, False), (False, True)][variant % 4]
+    child = pexpect.spawn(sys.executable, ['-u', path], encoding='utf-8', timeout=30, echo=echo)
+    if change:
+        return replwrap.REPLWrapper(child, 'toy> ', 'prompts {0} {1}')
+    return replwrap.REPLWrapper(child, 'toy> ', None, continuation_prompt='more> ')
+
+
 def real_session(arg):
     kind, seed, ncmds, use_async, tmp = arg
     import random
     rng = random.Random(seed)
     common.repo_on_path()
-    fam = dict(bash=bash_family, python=py_family, fake=fake_family)[kind]
+    fam = dict(bash=bash_family, python=py_family, fake=fake_family, toy=toy_family)[kind]
     cmds = [fam(rng, k) for k in range(ncmds)]
+    touts = [rng.choice([30, 30, -1, None]) for _ in cmds]
     res = []
     try:
         if kind == 'bash':
             w = replwrap.bash()
         elif kind == 'python':
             w = replwrap.python()
+        elif kind == 'toy':
+            path = os.path.join(tmp, 'toy_repl_%d.py' % seed)
+            open(path, 'w').write(TOY_REPL)
+            w = toy_wrapper(seed, path)
         else:
             path = os.path.join(tmp, 'fake_repl_%d.py' % seed)
             open(path, 'w').write(FAKE_REPL)
@@ -292,9 +351,9 @@ def real_session(arg):
         return dict(kind=kind, seed=seed, error='start: %r' % (e,), cmds=[c for c, _ in cmds], res=[])
 
     async def arun():
-        for c, _ in cmds:
+        for (c, _), to in zip(cmds, touts):
             try:
-                v = await w.run_command(c, timeout=30, async_=True)
+                v = await w.run_command(c, timeout=to, async_=True)
                 res.append(['value', v])
             except ValueError:
                 res.append(['ValueError'])
@@ -307,9 +366,9 @@ def real_session(arg):
         finally:
             loop.close()
     else:
-        for c, _ in cmds:
+        for (c, _), to in zip(cmds, touts):
             try:
-                v = w.run_command(c, timeout=30)
+                v = w.run_command(c, timeout=to)
                 res.append(['value', v])
             except ValueError:
                 res.append(['ValueError'])
@@ -319,7 +378,7 @@ def real_session(arg):
         w.child.close(force=True)
     except Exception:
         pass
-    return dict(kind=kind, seed=seed, use_async=use_async, cmds=[c for c, _ in cmds],
+    return dict(kind=kind, seed=seed, use_async=use_async, cmds=[c for c, _ in cmds], timeouts=touts,
                 expected=[(['ValueError'] if e is ValueError else ['value', e]) for _, e in cmds], res=res)
 
 
@@ -331,8 +390,8 @@ def real_check(r):
         if got != exp:
             def short(x):
                 return x if len(repr(x)) < 90 else [x[0], '%d chars: %r...%r' % (len(x[1]), x[1][:25], x[1][-25:])] if len(x) > 1 else x
-            return '%s %s: command %d %r returned %r, its own output is %r (previous command: %r)' % (
-                r['kind'], 'awaited' if r.get('use_async') else 'blocking', n, cmd[:40], short(got), short(exp), r['cmds'][n - 1][:40] if n else None)
+            return '%s %s: command %d %r (timeout=%r) returned %r, its own output is %r (previous command: %r)' % (
+                r['kind'], 'awaited' if r.get('use_async') else 'blocking', n, cmd[:40], (r.get('timeouts') or [None] * (n + 1))[n], short(got), short(exp), r['cmds'][n - 1][:40] if n else None)
     return None
 
 
@@ -386,11 +445,25 @@ def run(ctx):
     jobs = []
     nses = 2 if ctx.quick() else 12
     for k in range(nses):
-        for kind in ('bash', 'python', 'fake'):
+        for kind in ('bash', 'python', 'fake', 'toy', 'toy'):
             for use_async in (False, True):
-                jobs.append((kind, ctx.seed * 1000 + k * 7 + (1 if use_async else 0) + len(kind), 8 if ctx.quick() else 14, use_async, ctx.tmp))
-    with multiprocessing.Pool(12) as pool:
-        routs = pool.map(real_session, jobs)
+                jobs.append((kind, ctx.seed * 1000 + k * 7 + (1 if use_async else 0) + len(kind) + len(jobs), 8 if ctx.quick() else 14, use_async, ctx.tmp))
+    pool = multiprocessing.Pool(12)
+    try:
+        routs = pool.map_async(real_session, jobs).get(timeout=420 if ctx.quick() else 1500)
+    except multiprocessing.TimeoutError:
+        # a command given timeout=None never came back: run the sessions one by one with a watchdog to name it
+        pool.terminate()
+        routs = []
+        for j in jobs:
+            one = multiprocessing.Pool(1)
+            try:
+                routs.append(one.apply_async(real_session, (j,)).get(timeout=120))
+            except multiprocessing.TimeoutError:
+                routs.append(dict(kind=j[0], seed=j[1], use_async=j[3], error='the session did not finish within 120 s (a command waits for ever)', cmds=[], res=[]))
+            one.terminate()
+    finally:
+        pool.terminate()
     big = 0
     for r in routs:
         for x in r['res']:
